@@ -98,3 +98,107 @@ Proof.
   unfold member_all. destruct (olookup k o) as [[| | | |l|]|]; try reflexivity.
   apply forallb_forall. intros x _. destruct x; reflexivity.
 Qed.
+
+(* ---- what the validity predicates look at --------------------------------------------------------------------------- *)
+
+Ltac key_neq := apply str_eqb_neq; reflexivity.
+
+Definition same_at (ks : list str) (a b : obj) : Prop := forall k, In k ks -> olookup k a = olookup k b.
+
+Definition action_keys : list str :=
+  [k_type; k_name; k_category; k_result_name; k_templating; k_template; k_template_variables].
+
+Lemma action_ok_ext : forall l g lim o a b, same_at action_keys a b -> action_ok g lim o a = action_ok g lim o b.
+Proof.
+  intros l g lim o a b H.
+  assert (Ht : olookup k_type a = olookup k_type b) by (apply H; cbn; tauto).
+  assert (Hn : olookup k_name a = olookup k_name b) by (apply H; cbn; tauto).
+  assert (Hc : olookup k_category a = olookup k_category b) by (apply H; cbn; tauto).
+  assert (Hr : olookup k_result_name a = olookup k_result_name b) by (apply H; cbn; tauto).
+  assert (Hg : olookup k_templating a = olookup k_templating b) by (apply H; cbn; tauto).
+  assert (Hp : olookup k_template a = olookup k_template b) by (apply H; cbn; tauto).
+  assert (Hv : olookup k_template_variables a = olookup k_template_variables b) by (apply H; cbn; tauto).
+  unfold action_ok, is_any_type, is_type, type_of, get_str, send_msg_ok, get_obj, required_field, optional_field, string_field.
+  cbn [existsb]. unfold is_type, type_of, get_str.
+  now rewrite Ht, Hn, Hc, Hr, Hg, Hp, Hv.
+Qed.
+
+Lemma same_at_oset : forall ks k v a, ~ In k ks -> same_at ks (oset k v a) a.
+Proof.
+  intros ks k v a Hk k' Hk'. apply olookup_oset_other. intro E. subst. contradiction.
+Qed.
+
+Lemma same_at_odel : forall ks k a, ~ In k ks -> same_at ks (odel k a) a.
+Proof.
+  intros ks k a Hk k' Hk'. apply olookup_odel_other. intro E. subst. contradiction.
+Qed.
+
+Lemma same_at_trans : forall ks a b c, same_at ks a b -> same_at ks b c -> same_at ks a c.
+Proof. intros ks a b c H1 H2 k Hk. now rewrite H1, H2. Qed.
+
+Lemma same_at_refl : forall ks a, same_at ks a a.
+Proof. intros ks a k Hk. reflexivity. Qed.
+
+(* membership of a concrete key in a concrete list of keys, decided by computation *)
+Lemma not_in_keys : forall k ks, existsb (str_eqb k) ks = false -> ~ In k ks.
+Proof.
+  intros k ks H Hin. assert (existsb (str_eqb k) ks = true) as E; [|congruence].
+  apply existsb_exists. exists k. split; [exact Hin | apply str_eqb_refl].
+Qed.
+Ltac not_key := apply not_in_keys; reflexivity.
+
+(* ---- the localization as loop state ------------------------------------------------------------------------------------- *)
+
+Definition loc_inv (st : mstate) : Prop := localization_ok (option_map JObj (snd st)) = true.
+
+Lemma string_array_strings : forall l, string_array_ok (Some (strings l)) = true.
+Proof. intro l. unfold strings. cbn. induction l as [|x l IH]; [reflexivity | exact IH]. Qed.
+
+Lemma item_of_translation : forall lt uuid it,
+  language_translation_ok (JObj lt) = true -> get_obj uuid lt = Some it -> item_translation_ok (JObj it) = true.
+Proof.
+  intros lt uuid it H Hg. unfold get_obj in Hg. destruct (olookup uuid lt) as [[| | | | |x]|] eqn:E; try discriminate.
+  inversion Hg; subst. cbn [language_translation_ok] in H.
+  exact (all_values_lookup item_translation_ok lt uuid (JObj it) H E).
+Qed.
+
+Lemma set_translation_ok : forall uuid prop trans lt,
+  language_translation_ok (JObj lt) = true -> language_translation_ok (JObj (set_translation uuid prop trans lt)) = true.
+Proof.
+  intros uuid prop trans lt H. unfold set_translation. cbn [language_translation_ok] in *.
+  destruct (get_obj uuid lt) as [it|] eqn:E.
+  - apply (all_values_oset item_translation_ok); [exact H|]. cbn [item_translation_ok].
+    apply (all_values_oset (fun v => string_array_ok (Some v))); [|apply string_array_strings].
+    exact (item_of_translation lt uuid it H E).
+  - apply (all_values_oset item_translation_ok); [exact H|]. cbn. now rewrite string_array_strings.
+Qed.
+
+Lemma delete_translation_ok : forall uuid prop lt,
+  language_translation_ok (JObj lt) = true -> language_translation_ok (JObj (delete_translation uuid prop lt)) = true.
+Proof.
+  intros uuid prop lt H. unfold delete_translation. cbn [language_translation_ok] in *.
+  destruct (get_obj uuid lt) as [it|] eqn:E; [|exact H].
+  pose proof (item_of_translation lt uuid it H E) as Hit. cbn [item_translation_ok] in Hit.
+  pose proof (all_values_odel (fun v => string_array_ok (Some v)) it prop Hit) as Hd.
+  destruct (odel prop it) as [|p r] eqn:Ed.
+  - now apply (all_values_odel item_translation_ok).
+  - apply (all_values_oset item_translation_ok); [exact H | exact Hd].
+Qed.
+
+Lemma for_languages_ok : forall f loc,
+  (forall lt, language_translation_ok (JObj lt) = true -> language_translation_ok (JObj (f lt)) = true) ->
+  localization_ok (Some (JObj loc)) = true -> localization_ok (Some (JObj (for_languages f loc))) = true.
+Proof.
+  intros f loc Hf H. cbn [localization_ok] in *. unfold for_languages.
+  induction loc as [|[k v] loc IH]; [reflexivity|]. simpl in *.
+  apply andb_true_iff in H. destruct H as [H1 H2]. rewrite (IH H2), andb_true_r.
+  destruct v; try exact H1. simpl. now apply Hf.
+Qed.
+
+Lemma loc_inv_map : forall fr loc f,
+  (forall lt, language_translation_ok (JObj lt) = true -> language_translation_ok (JObj (f lt)) = true) ->
+  loc_inv (fr, loc) -> forall fr', loc_inv (fr', option_map (for_languages f) loc).
+Proof.
+  intros fr loc f Hf H fr'. unfold loc_inv in *. cbn [snd] in *. destruct loc as [l|]; [|exact H].
+  cbn [option_map] in *. now apply for_languages_ok.
+Qed.
